@@ -1,7 +1,7 @@
 """Engine "codec": property C19 (end-to-end checksum codec, /repo/e2e-checksum/main.go).
 
 Pure-function engine: every case is a one-line history
-  H M <type> <hex inner> | H R <hex> | H E <name> [hex]  ;  OK <hex out> | ERR <hex out> <same err>  ;  I .. CRC .. RT .. FS .. D ..
+  H M <type> <hex inner> | H R <hex> | H E <name> [hex] | H A <n> (<type> <hex>)*n  ;  OK <hex out> | ERR <hex out> <same err>  ;  I .. CRC .. RT .. FS .. D ..
 (see harness/codec/codec_verif_test.go).  The Go harness runs the real
 myCodec.Marshal / Unmarshal; ocaml/codec/codec_driver replays each case on the
 model extracted from coq/Codec/Model.v and evaluates the Coq-defined monitor
@@ -16,6 +16,9 @@ def codec_nontrivial(lines):
         return False
     parts = lines[0].split(";")
     t = parts[0].split()
+    if len(t) >= 5 and t[1] == "A":
+        # a sequence: at least two calls, at least one non-empty inner encoding
+        return len(t[4::2]) >= 2 and any(h != "-" for h in t[4::2])
     if len(t) >= 4 and t[1] == "M":
         inner = t[3]
     elif len(t) >= 3 and t[1] == "R":
@@ -25,12 +28,15 @@ def codec_nontrivial(lines):
     return inner != "-" and len(parts) > 1 and parts[1].split()[:1] == ["OK"]
 
 
-RULE = ("cases = corpus + seeded random: 80% messages of 31 generated types reachable from e2e-checksum's go.mod "
+RULE = ("cases = corpus + seeded random: 70% messages of 31 generated types reachable from e2e-checksum's go.mod "
         "(datastore v1 Entity/Key/Value/ArrayValue/Mutation/CommitRequest/Lookup*/RunQuery*, LatLng, wrapperspb, structpb, anypb, "
         "timestamppb, durationpb, fieldmaskpb, typepb, apipb, descriptorpb (proto2), emptypb) filled through protoreflect "
         "(every scalar kind, oneofs, enums, repeated, maps, nesting depth <= 5, boundary integers, +-0/inf/denormal floats, multi-byte "
         "UTF-8, empty messages, messages consisting only of unknown fields, unknown fields of all wire types incl. groups and incl. a "
-        "pre-existing field 2047, at top level and nested), 12% arbitrary inner byte strings through a stub inner codec (random bytes; "
+        "pre-existing field 2047, at top level and nested), 12% sequences of 2-3 Marshal calls on one codec (kind A: mostly inner "
+        "encodings <= 58 bytes, raw lengths around 57/58/59/64; the returned slices themselves are kept and re-read after the later "
+        "calls, after overwriting the inner codec's returned bytes and the input messages, and after overwriting earlier outputs -- "
+        "outputs must be independent values), 10% arbitrary inner byte strings through a stub inner codec (random bytes; "
         "well-formed token sequences; truncated / bit-flipped / extended ones), 8% failing inner codecs (non-proto value, nil, typed "
         "nil, invalid UTF-8, proto2 required field missing with partial bytes returned, stub returning bytes+error); inner sizes 0 .. "
         "VERIF_MAXLEN bytes; distinct by hash of the operation token list; non-trivial = non-empty inner encoding that was framed")
@@ -48,7 +54,7 @@ class CodecEngine(engines.HistEngine):
     corpus = "codec"
     props = {
         "C19": dict(monitor="c19",
-                    rel={"bytes", "crc", "error", "fields", "roundtrip", "unmarshal", "direct"},
+                    rel={"bytes", "crc", "error", "fields", "roundtrip", "unmarshal", "direct", "alias"},
                     quick=dict(VERIF_N="2000", VERIF_MAXLEN="65536", VERIF_HUGE="3"),
                     thorough=dict(VERIF_N="100000", VERIF_MAXLEN="1048576", VERIF_HUGE="12"),
                     nontrivial=codec_nontrivial,
@@ -82,6 +88,9 @@ ASSUMPTIONS = {
         "the module's dependency graph does); for a type that declares field 2047 the checksum would be read as that field",
         "hash/crc32 (Castagnoli) is re-specified bit by bit in Coq and compared with the library on every case; proto.Buffer.EncodeVarint/"
         "EncodeFixed32 never return an error (golang/protobuf 1.5.3), so the two error branches after them are unreachable and not modelled",
+        "outputs are values: a slice returned by Marshal must keep reading as the frame of its own message after later Marshal "
+        "calls on the same codec, after the caller overwrites the inner codec's bytes / the input message, and after the caller "
+        "overwrites other outputs (kind A, class 'alias'); single-goroutine sequences only -- concurrent Marshal calls are not run",
         "the error value is opaque: the harness checks that the returned error is the inner codec's error value (==) and the returned "
         "bytes are the inner codec's bytes; log.Printf output of Marshal is discarded and not part of the property",
     ],
